@@ -24,7 +24,19 @@ pub mod m9 {
 pub mod m10 {
     average::define_moments!(M10, 10);
 }
+pub mod m12 {
+    average::define_moments!(M12, 12);
+}
+pub mod m17 {
+    average::define_moments!(M17, 17);
+}
+pub mod m20 {
+    average::define_moments!(M20, 20);
+}
 pub use m10::M10;
+pub use m12::M12;
+pub use m17::M17;
+pub use m20::M20;
 pub use m4::M4;
 pub use m5::M5;
 pub use m6::M6;
@@ -63,17 +75,22 @@ pub use hist7::Histogram as H7;
 // concatenate! users.  Short syntax, long syntax with several statistics per estimator,
 // an estimator without Merge (Quantile), a define_moments! type, and a pub struct.
 pub mod cat {
+    #[cfg(any(feature = "std", feature = "libm"))]
     use super::M6;
-    use average::{concatenate, Estimate, Kurtosis, Max, Mean, Min, Quantile, Skewness, Variance};
+    use average::{concatenate, Estimate, Max, Min};
+    #[cfg(any(feature = "std", feature = "libm"))]
+    use average::{Kurtosis, Mean, Quantile, Skewness, Variance};
 
     concatenate!(pub CatMinMax, [Min, min], [Max, max]);
 
+    #[cfg(any(feature = "std", feature = "libm"))]
     concatenate!(
         pub CatVarQ,
         [Variance, variance, mean, sample_variance, population_variance, error],
         [Quantile, quant, quantile]
     );
 
+    #[cfg(any(feature = "std", feature = "libm"))]
     concatenate!(
         pub Cat5,
         [Mean, mean_e, mean],
@@ -83,6 +100,7 @@ pub mod cat {
         [M6, mom, sample_variance, sample_skewness, sample_excess_kurtosis]
     );
 
+    #[cfg(any(feature = "std", feature = "libm"))]
     concatenate!(
         pub CatSk3,
         [Skewness, skewness],
@@ -90,4 +108,6 @@ pub mod cat {
         [Mean, mean]
     );
 }
-pub use cat::{Cat5, CatMinMax, CatSk3, CatVarQ};
+pub use cat::CatMinMax;
+#[cfg(any(feature = "std", feature = "libm"))]
+pub use cat::{Cat5, CatSk3, CatVarQ};
